@@ -352,6 +352,7 @@ func c20Observe(out string, L string) map[string]any {
 // ---------------------------------------------------------------- one recorded run
 
 var c20BadNames int
+var c20EtaUnclamped bool // which of the two ETA texts the code under test produces (see render)
 var c20NameCache = map[string][][]int{}
 
 // A run is one textProgressBar from newTextProgressBar on.  Its events are buffered and written
@@ -559,12 +560,19 @@ func (r *c20Run) render(ev map[string]any, willStep int64, fn func()) map[string
 	now := r.now
 	total := convertSizeToString(float64(r.p.fileStep))
 	speed := rs.getSpeed(r.p.fileStep, &now)
-	speedStr, etaStr := "--- B/s", "--- ETA"
+	// the ETA of a step beyond the size (or of any step of an empty file) is clamped at 0 since
+	// 46f99a5 and was negative before: both texts are computed, the one the code shows is recognised
+	// on the first line that has an ETA and used from then on for the lines that dropped it
+	speedStr, etaStr, etaAlt := "--- B/s", "--- ETA", "--- ETA"
 	if speed > 0 {
 		speedStr = fmt.Sprintf("%s/s", convertSizeToString(speed))
-		etaStr = fmt.Sprintf("%s ETA", convertTimeToString(math.Max(0, math.Round(float64(r.p.fileSize-r.p.fileStep)/speed))))
+		left := math.Round(float64(r.p.fileSize-r.p.fileStep) / speed)
+		etaStr = fmt.Sprintf("%s ETA", convertTimeToString(math.Max(0, left)))
+		etaAlt = fmt.Sprintf("%s ETA", convertTimeToString(left))
 	}
-	ev["lens"] = map[string]any{"t": len(total), "s": len(speedStr), "e": len(etaStr)}
+	if c20EtaUnclamped {
+		etaStr, etaAlt = etaAlt, etaStr
+	}
 	// steering: once fileStep / fileSize left the sane range the run ends after this call
 	cls := "ok"
 	switch {
@@ -591,12 +599,17 @@ func (r *c20Run) render(ev map[string]any, willStep int64, fn func()) map[string
 			r.lastAt, r.hasLast = r.now, true
 			nf := o["nf"].(int)
 			// in the sane range the fields on the line must have the lengths the copy of the formatters gave
+			if nf >= 2 && nf <= 4 && o["oe"] != len(etaStr) && o["oe"] == len(etaAlt) {
+				c20EtaUnclamped = !c20EtaUnclamped
+				etaStr = etaAlt
+			}
 			if cls == "ok" && ((nf == 4 && o["ot"] != len(total)) || (nf >= 3 && nf <= 4 && o["os"] != len(speedStr)) ||
 				(nf >= 2 && nf <= 4 && o["oe"] != len(etaStr))) {
 				r.desync++
 			}
 		}
 	}
+	ev["lens"] = map[string]any{"t": len(total), "s": len(speedStr), "e": len(etaStr)}
 	fz := false
 	if o["res"] == "rendered" {
 		fz = c20NearTie(100, r.p.fileStep, r.p.fileSize) || (o["bar"] == true && c20NearTie(o["total"].(int), r.p.fileStep, r.p.fileSize))
